@@ -1010,6 +1010,37 @@ class NumbaBackend(NumpyBackend):
 
         cell_volume = grids.make_cell_volume_getter(grid=grid, flat_index=False)
 
+        if with_ghost_cells:
+            # indices refer to the full data array, whereas cell volumes are only known
+            # for valid cells -> shift indices (ghost cells use the adjacent valid cell)
+            cell_volume_valid = cell_volume
+            shape = grid.shape
+
+            if grid.num_axes == 1:
+
+                @register_jitable
+                def cell_volume(i):
+                    return cell_volume_valid(min(max(i - 1, 0), shape[0] - 1))
+
+            elif grid.num_axes == 2:
+
+                @register_jitable
+                def cell_volume(i, j):
+                    return cell_volume_valid(
+                        min(max(i - 1, 0), shape[0] - 1),
+                        min(max(j - 1, 0), shape[1] - 1),
+                    )
+
+            elif grid.num_axes == 3:
+
+                @register_jitable
+                def cell_volume(i, j, k):
+                    return cell_volume_valid(
+                        min(max(i - 1, 0), shape[0] - 1),
+                        min(max(j - 1, 0), shape[1] - 1),
+                        min(max(k - 1, 0), shape[2] - 1),
+                    )
+
         if grid.num_axes == 1:
             # specialize for 1-dimensional interpolation
             data_x = grids.make_interpolation_axis_data(
